@@ -3,7 +3,7 @@
 //! C19 — the counting input reports exactly the bytes delivered (scenario `count`).
 
 use super::bytesgen::*;
-use super::corrupt::{needs_isolation, slow_by_count};
+use super::corrupt::{needs_isolation, slow_by_count, slowish_by_count};
 use super::*;
 use crate::engine::*;
 use crate::seams::{BaseInput, DynInput};
@@ -53,7 +53,7 @@ pub fn gen_light_bytes(rng: &mut Rng, scn: &str, filter: &dyn Fn(&Subject) -> bo
         let fam = gen_bytes_into(rng, s, &mut p, big);
         if s.empty_elem {
             let b = plan_bytes(&p);
-            if needs_isolation(s, &b) || slow_by_count(s, &b) {
+            if needs_isolation(s, &b) || slow_by_count(s, &b) || slowish_by_count(s, &b) {
                 continue;
             }
         }
